@@ -3,12 +3,13 @@ package main
 import (
 	"encoding/json"
 	"slices"
+	"verif/harness/hlib"
 
 	"mvdan.cc/sh/v3/expand"
 )
 
 // C34: expand.ListEnviron / FuncEnviron.
-func init() { register("environ", environEngine) }
+func init() { hlib.Register("environ", environEngine) }
 
 type environVec struct {
 	List []([]any) `json:"list"`
@@ -24,7 +25,7 @@ func environEngine(raw json.RawMessage, _ []string) (any, error) {
 	}
 	pairs := make([]string, len(v.List))
 	for i, p := range v.List {
-		pairs[i] = text(p)
+		pairs[i] = hlib.Text(p)
 	}
 	orig := slices.Clone(pairs)
 	env := expand.ListEnviron(pairs...)
@@ -32,7 +33,7 @@ func environEngine(raw json.RawMessage, _ []string) (any, error) {
 	res["input_mutated"] = !slices.Equal(orig, pairs)
 	var each []any
 	env.Each(func(name string, vr expand.Variable) bool {
-		each = append(each, map[string]any{"name": untext(name), "val": untext(vr.Str),
+		each = append(each, map[string]any{"name": hlib.Untext(name), "val": hlib.Untext(vr.Str),
 			"ok": vr.Set && vr.Exported && vr.Kind == expand.String})
 		return true
 	})
@@ -50,9 +51,9 @@ func environEngine(raw json.RawMessage, _ []string) (any, error) {
 	res["stops"] = stops
 	var gets []any
 	for _, g := range v.Gets {
-		name := text(g.Name)
+		name := hlib.Text(g.Name)
 		vr := env.Get(name)
-		gets = append(gets, map[string]any{"name": untext(name), "set": vr.IsSet(), "val": untext(vr.Str),
+		gets = append(gets, map[string]any{"name": hlib.Untext(name), "set": vr.IsSet(), "val": hlib.Untext(vr.Str),
 			"ok": !vr.Set || (vr.Exported && vr.Kind == expand.String)})
 	}
 	res["gets"] = gets
@@ -60,9 +61,9 @@ func environEngine(raw json.RawMessage, _ []string) (any, error) {
 	fe := expand.FuncEnviron(func(name string) string { return env.Get(name).Str })
 	var fgets []any
 	for _, g := range v.Gets {
-		name := text(g.Name)
+		name := hlib.Text(g.Name)
 		vr := fe.Get(name)
-		fgets = append(fgets, map[string]any{"set": vr.IsSet(), "val": untext(vr.Str)})
+		fgets = append(fgets, map[string]any{"set": vr.IsSet(), "val": hlib.Untext(vr.Str)})
 	}
 	res["fgets"] = fgets
 	return res, nil
